@@ -415,12 +415,19 @@ def run(ctx):
     for d in K.corpus_cases("C17") + gen_cases(ctx):
         d.pop("returns_list", None)
         run_case(ctx, d)
+    from props import c16_reuse
+    for d in c16_reuse.gen_extra_cases(ctx.rng, ctx.tier == "thorough", ["naive", "labelaware", "simmiss"]):
+        c16_reuse.run_extra(ctx, d)
 
 
 def replay(ctx, r):
     import json
     d = dict(r["case"] if "case" in r else r["first_disagreement"][0])
     d.pop("returns_list", None)
+    if d.get("family"):
+        from props import c16_reuse
+        c16_reuse.run_extra(ctx, d)
+        return
     X, Q, L, T, QT, CF, cls, qcls, cfc = build(d)
     print("replay case:", json.dumps(d))
     print(" cases X =", X.tolist(), "\n case classes =", cls.tolist(), "\n queries Q =", Q.tolist(),
